@@ -209,8 +209,13 @@ def run_A(case):
             viol.append({"clause": "disqualification_lost", "key": key, "detail": f"{dq}"})
     temps = sweep(tc)
     nrows = 0
-    for usage in (False, True):
-        data = reporting_daily(fam, temps, usage)
+    variants = [(False, temps), (True, temps)]
+    if case["i"] % 4 == 0:
+        # reporting temperatures that are not float64 (whole degrees as int64; float32 - every value is exact in both)
+        whole = np.arange(tc["T_min"] - 70.0, tc["T_max"] + 70.0, 5.0)
+        variants += [(False, whole.astype("int64")), (True, np.where(np.isnan(temps), 50.0, temps).astype("float32"))]
+    for usage, tvals in variants:
+        data = reporting_daily(fam, tvals, usage)
         outs = []
         for m in (m1, m2, m3, m4, m5):
             try:
@@ -475,7 +480,19 @@ def run_R(case):
         except Exception:
             pass
     m.to_json()
+    # a document obtained with to_dict() BEFORE the object is fitted again belongs to the caller: it must not follow the object
+    kept = m.to_dict()
+    kept_fp = F.fp(kept)
     c02.fit(fam, m, c02.make_baseline(fam, fb))
+    for _, d in sets[:2]:
+        try:
+            c02.predict(fam, m, d)
+        except Exception:
+            pass
+    m.to_dict()
+    if F.fp(kept) != kept_fp:
+        viol.append({"clause": "kept_document_changed_by_later_use_of_the_object", "key": key0,
+                     "detail": "a dict returned by to_dict() after the first fit changed when the same object was fitted on another meter"})
     fresh = c02.fit(fam, c02.new_model(fam), c02.make_baseline(fam, fb))
     doc, doc_fresh = m.to_json(), fresh.to_json()
     if not same_doc(doc, doc_fresh):
@@ -523,7 +540,7 @@ def cases_B(tier):
     if tier == "quick":
         names = ["daily_current", "daily_legacy", "daily_poorfit", "daily_unc_alpha0", "billing", "daily_fixed_offset", "billing_fixed_offset", "hourly", "hourly_solar", "hourly_robust", "hourly_bins", "hourly_supp", "caltrack"]
     out = [{"part": "B", "fit": n, "tier": tier, "depth": 3 if tier == "thorough" else 2} for n in names]
-    out += [{"part": "R", "fit": f, "tier": tier} for f in (("daily", "billing", "hourly") if tier == "quick" else
+    out += [{"part": "R", "fit": f, "tier": tier} for f in (("daily", "billing", "hourly", "caltrack") if tier == "quick" else
                                                                ("daily", "billing", "hourly", "hourly_solar", "caltrack"))]
     return out
 
